@@ -110,12 +110,30 @@ Section C04.
     unfold outpoints_bytes, sequences_bytes, outputs_bytes in *. rewrite E1, E2. repeat split; assumption.
   Qed.
 
+  (* add_inputs / add_outputs: one add_input / add_output per element *)
+  Lemma fold_add_inputs_ok l : forall s,
+    Inv s ->
+    Inv (fold_left (fun s0 i => clear_in s0 (add_input (st_tx s0) i)) l s) /\
+    st_tx (fold_left (fun s0 i => clear_in s0 (add_input (st_tx s0) i)) l s) = fold_left add_input l (st_tx s).
+  Proof.
+    induction l as [|i l IH]; intros s I; cbn [fold_left]; [split; [exact I|reflexivity]|].
+    apply (IH (clear_in s (add_input (st_tx s) i))). apply clear_in_inv; [reflexivity|exact I].
+  Qed.
+  Lemma fold_add_outputs_ok l : forall s,
+    Inv s ->
+    Inv (fold_left (fun s0 x => clear_out s0 (add_output (st_tx s0) x)) l s) /\
+    st_tx (fold_left (fun s0 x => clear_out s0 (add_output (st_tx s0) x)) l s) = fold_left add_output l (st_tx s).
+  Proof.
+    induction l as [|x l IH]; intros s I; cbn [fold_left]; [split; [exact I|reflexivity]|].
+    apply (IH (clear_out s (add_output (st_tx s) x))). apply clear_out_inv; [reflexivity|exact I].
+  Qed.
+
   Lemma step_ok s o s' out :
     Inv s -> step H s o = Ok (s', out) ->
     Inv s' /\ step_pure H (st_tx s) o = Ok (st_tx s', out).
   Proof.
     intros I E. unfold step, step_gen in E. unfold step_pure.
-    destruct o as [i|i|k i|k i|x|x|k x|k x|v|v| |f idx sub value].
+    destruct o as [i|i|k i|k i|x|x|k x|k x|v|v| |f idx sub value|li|lo|hf|f idx sub value| ].
     - inversion E; subst. split; [apply clear_in_inv; [reflexivity|exact I] | reflexivity].
     - inversion E; subst. split; [apply clear_in_inv; [reflexivity|exact I] | reflexivity].
     - destruct (vec_insert k i (inputs (st_tx s))) as [l| |]; cbn [bind] in E |- *; try discriminate.
@@ -135,6 +153,16 @@ Section C04.
       destruct (sighash_cached H s idx f sub value) as [s1 r]. cbn [fst snd] in C1, C2, C3.
       rewrite <- C1.
       destruct r as [p| |]; try discriminate; inversion E; subst; (split; [exact C3 | rewrite C2; reflexivity]).
+    - inversion E; subst. destruct (fold_add_inputs_ok li s I) as (F1 & F2). split; [exact F1 | rewrite F2; reflexivity].
+    - inversion E; subst. destruct (fold_add_outputs_ok lo s I) as (F1 & F2). split; [exact F1 | rewrite F2; reflexivity].
+    - destruct (hash_inputs_c_ok s hf I) as (A1 & A2 & A3).
+      destruct (hash_inputs_c H s hf) as [s1 h]. cbn [fst snd] in A1, A2, A3.
+      inversion E; subst. split; [exact A3 | rewrite A2; reflexivity].
+    - destruct (sighash_cached_ok s idx f sub value I) as (C1 & C2 & C3).
+      destruct (sighash_cached H s idx f sub value) as [s1 r]. cbn [fst snd] in C1, C2, C3.
+      rewrite <- C1.
+      destruct r as [p| |]; try discriminate; inversion E; subst; (split; [exact C3 | rewrite C2; reflexivity]).
+    - inversion E; subst. split; [exact I | reflexivity].
   Qed.
 
   Lemma step_is_pure s o s' out :
@@ -148,11 +176,15 @@ Section C04.
   Lemma step_panic s o : Inv s -> step H s o = Panic -> step_pure H (st_tx s) o = Panic.
   Proof.
     intros I E. unfold step, step_gen in E. unfold step_pure.
-    destruct o as [i|i|k i|k i|x|x|k x|k x|v|v| |f idx sub value]; try discriminate.
+    destruct o as [i|i|k i|k i|x|x|k x|k x|v|v| |f idx sub value|li|lo|hf|f idx sub value| ]; try discriminate.
     - destruct (vec_insert k i (inputs (st_tx s))); cbn [bind] in *; try discriminate; reflexivity.
     - destruct (vec_set k i (inputs (st_tx s))); cbn [bind] in *; try discriminate; reflexivity.
     - destruct (vec_insert k x (outputs (st_tx s))); cbn [bind] in *; try discriminate; reflexivity.
     - destruct (vec_set k x (outputs (st_tx s))); cbn [bind] in *; try discriminate; reflexivity.
+    - destruct (sighash_cached_ok s idx f sub value I) as (C1 & _ & _).
+      destruct (sighash_cached H s idx f sub value) as [s1 r]. cbn [fst snd] in C1.
+      rewrite <- C1. destruct r; try discriminate; reflexivity.
+    - destruct (hash_inputs_c H s hf); discriminate.
     - destruct (sighash_cached_ok s idx f sub value I) as (C1 & _ & _).
       destruct (sighash_cached H s idx f sub value) as [s1 r]. cbn [fst snd] in C1.
       rewrite <- C1. destruct r; try discriminate; reflexivity.
@@ -161,11 +193,13 @@ Section C04.
   Lemma step_never_err s o : step H s o <> Err.
   Proof.
     unfold step, step_gen.
-    destruct o as [i|i|k i|k i|x|x|k x|k x|v|v| |f idx sub value]; try discriminate.
+    destruct o as [i|i|k i|k i|x|x|k x|k x|v|v| |f idx sub value|li|lo|hf|f idx sub value| ]; try discriminate.
     - unfold vec_insert. destruct (Nat.ltb _ _); discriminate.
     - unfold vec_set. destruct (Nat.ltb _ _); discriminate.
     - unfold vec_insert. destruct (Nat.ltb _ _); discriminate.
     - unfold vec_set. destruct (Nat.ltb _ _); discriminate.
+    - destruct (sighash_cached H s idx f sub value) as [s1 [p| |]]; discriminate.
+    - destruct (hash_inputs_c H s hf); discriminate.
     - destruct (sighash_cached H s idx f sub value) as [s1 [p| |]]; discriminate.
   Qed.
 
